@@ -283,8 +283,17 @@ def run(ctx):
             if sel.any() and not same_angle(th_o, azimuths(mask)[conv[0]], sel):
                 ctx.violation({'kind': 'default-azimuth-frame', 'array_parity': par}, {'mask': c['mask'], 'after_rotated_request': bool(c['id'] % 2)}, case=None)
                 continue
+        # a mode asked for WITHOUT coordinates is the mode on the default frame of THIS mask (just validated against TLC), whatever
+        # masks of the same shape / the same number of samples were evaluated earlier in the process
+        for j in (2, 3, 4, 7):
+            zd = lentil.zernike(mask, j)
+            ze = lentil.zernike(mask, j, rho=rho_o, theta=th_o)
+            if not np.allclose(zd, ze, rtol=0, atol=1e-12):
+                ctx.violation({'kind': 'default-mode-is-not-the-mode-on-the-default-frame', 'array_parity': par},
+                              {'mask': c['mask'], 'j': j, 'max_abs_diff': float(np.abs(zd - ze).max())}, case=None)
+                break
         # the same mask held in another memory layout (Fortran order, a transposed view) is the same mask
-        for lay, mk in (('fortran', np.asfortranarray(mask)), ('transposed-view', np.ascontiguousarray(mask.T).T)):
+        for lay, mk in (('fortran',np.asfortranarray(mask)), ('transposed-view', np.ascontiguousarray(mask.T).T)):
             r2, t2 = lentil.zernike_coordinates(mk)
             if not (np.allclose(r2, rho_o, rtol=0, atol=1e-12) and np.allclose(t2, th_o, rtol=0, atol=1e-12)):
                 ctx.violation({'kind': 'depends-on-memory-layout', 'layout': lay, 'array_parity': par}, {'mask': c['mask']}, case=None)
